@@ -260,6 +260,57 @@ def Local.offset_from_utc_datetime {β} (L : Lookups β) (W : World) (s : State)
 def Local.offset_from_local_datetime {β} (L : Lookups β) (W : World) (s : State) (t : Nat) (d : Int) : State × β :=
   offset L W s t d true
 
+/-! ### the public entry points, with the number of zone lookups they perform
+
+`impl TimeZone for Local` (src/offset/local/mod.rs), `Local::now`, and the `TimeZone` trait defaults
+they reach (src/offset/mod.rs: `from_utc_datetime`, `from_local_datetime`; src/datetime/mod.rs:
+`with_timezone`), each written as the call(s) it makes.  The state carries a counter of
+`inner::offset_from_*_datetime` calls, so that "one lookup per conversion" is a statement and not the
+shape of a definition. -/
+
+structure Counted where
+  s : State
+  /-- number of `inner::offset_from_utc_datetime` / `inner::offset_from_local_datetime` calls so far -/
+  calls : Nat
+
+/-- `inner::offset_from_utc_datetime(utc)` (`localDir = false`) / `inner::offset_from_local_datetime(local)` -/
+def inner_counted {β} (L : Lookups β) (W : World) (c : Counted) (t : Nat) (d : Int) (localDir : Bool) :
+    Counted × β :=
+  let r := offset L W c.s t d localDir
+  ({ s := r.1, calls := c.calls + 1 }, r.2)
+
+namespace Api
+variable {β : Type}
+/-- `fn offset_from_utc_datetime(&self, utc)`: `inner::offset_from_utc_datetime(utc).unwrap()` -/
+def offset_from_utc_datetime (L : Lookups β) (W : World) (c : Counted) (t : Nat) (utc : Int) : Counted × β :=
+  inner_counted L W c t utc false
+/-- `fn offset_from_local_datetime(&self, local)`: `inner::offset_from_local_datetime(local)` -/
+def offset_from_local_datetime (L : Lookups β) (W : World) (c : Counted) (t : Nat) (loc : Int) : Counted × β :=
+  inner_counted L W c t loc true
+/-- `fn offset_from_utc_date(&self, utc)`: `self.offset_from_utc_datetime(&utc.and_time(NaiveTime::MIN))`;
+`midnight` is that date-time -/
+def offset_from_utc_date (L : Lookups β) (W : World) (c : Counted) (t : Nat) (midnight : Int) : Counted × β :=
+  offset_from_utc_datetime L W c t midnight
+/-- `fn offset_from_local_date(&self, local)`: `self.offset_from_local_datetime(&local.and_time(NaiveTime::MIN))` -/
+def offset_from_local_date (L : Lookups β) (W : World) (c : Counted) (t : Nat) (midnight : Int) : Counted × β :=
+  offset_from_local_datetime L W c t midnight
+/-- `TimeZone::from_utc_datetime` (default): `DateTime::from_naive_utc_and_offset(*utc, self.offset_from_utc_datetime(utc))`;
+the result is the reading together with the answer -/
+def from_utc_datetime (L : Lookups β) (W : World) (c : Counted) (t : Nat) (utc : Int) : Counted × (Int × β) :=
+  let r := offset_from_utc_datetime L W c t utc
+  (r.1, (utc, r.2))
+/-- `TimeZone::from_local_datetime` (default): `self.offset_from_local_datetime(local).and_then(…)` -/
+def from_local_datetime (L : Lookups β) (W : World) (c : Counted) (t : Nat) (loc : Int) : Counted × (Int × β) :=
+  let r := offset_from_local_datetime L W c t loc
+  (r.1, (loc, r.2))
+/-- `DateTime<Utc>::with_timezone(&Local)`: `tz.from_utc_datetime(&self.datetime)` -/
+def with_timezone (L : Lookups β) (W : World) (c : Counted) (t : Nat) (utc : Int) : Counted × (Int × β) :=
+  from_utc_datetime L W c t utc
+/-- `Local::now()`: `Utc::now().with_timezone(&Local)`; `utc_now` is what `Utc::now()` returned -/
+def now (L : Lookups β) (W : World) (c : Counted) (t : Nat) (utc_now : Int) : Counted × (Int × β) :=
+  with_timezone L W c t utc_now
+end Api
+
 inductive Step where
   | setTZ (v : Bytes)
   | setNotUnicode
